@@ -34,6 +34,20 @@ type e1Event struct {
 	FailLocV int64
 	FailIdx  string // index argument (for the WithIndex variant), "" otherwise
 	Site     string // stable-ish key: name#ordinal among same-name events in program order
+	// At is the instruction of the child function at which the event happens: the raw syscall itself, or — for an
+	// event inside a helper the child calls — the call of that helper. Seq orders the events of one helper call.
+	At    ssa.Instruction
+	Seq   int
+	Via   *ssa.Function // the helper, nil for direct events
+	inner *Form         // guard inside the helper (atoms prefixed with the helper's name)
+}
+
+// evBeforeE1: program order of two events of the launch sequence.
+func evBeforeE1(a, b *e1Event) bool {
+	if a.At != b.At {
+		return before(a.At, b.At)
+	}
+	return a.Seq < b.Seq
 }
 
 func (e *e1Event) arg(i int) ssa.Value {
@@ -130,7 +144,7 @@ func buildE1(p *Prog) (*e1Result, error) {
 	}
 	// exit functions: module functions called from Child with no Return instruction that issue SYS_EXIT
 	exitNr := p.Sys("SYS_EXIT")
-	for _, ci := range callInstrs(r.Child) {
+	for _, ci := range callInstrsDeep(r.Child, 2) {
 		_, callee := calleeOf(ci)
 		if callee == nil || !inModule(callee) || callee.Blocks == nil {
 			continue
@@ -152,6 +166,37 @@ func buildE1(p *Prog) (*e1Result, error) {
 		}
 		if !hasRet && hasExit {
 			r.ExitFns[callee] = true
+		}
+	}
+	// a function every path of which ends in a call of an exit function does not return either
+	for changed := true; changed; {
+		changed = false
+		for _, ci := range callInstrsDeep(r.Child, 2) {
+			_, callee := calleeOf(ci)
+			if callee == nil || !inModule(callee) || callee.Blocks == nil || r.ExitFns[callee] {
+				continue
+			}
+			callsExit := false
+			isExitCall := func(in ssa.Instruction) bool {
+				if c2, ok := in.(ssa.CallInstruction); ok {
+					if _, c3 := calleeOf(c2); c3 != nil && r.ExitFns[c3] {
+						return true
+					}
+				}
+				return false
+			}
+			for _, c2 := range callInstrs(callee) {
+				if isExitCall(c2) {
+					callsExit = true
+				}
+			}
+			if !callsExit {
+				continue
+			}
+			if returns, _ := (pathQuery{fn: callee, target: isReturnOrPanic, stop: isExitCall}).find(); !returns {
+				r.ExitFns[callee] = true
+				changed = true
+			}
 		}
 	}
 	if len(r.ExitFns) == 0 {
@@ -195,9 +240,19 @@ func (r *e1Result) extract() {
 				continue
 			}
 			if !isRawSyscallName(n) {
+				// a helper of the package that issues raw system calls: its events happen here
+				if callee != nil && inModule(callee) && callee.Pkg == fn.Pkg && len(callee.Blocks) > 0 && !strings.HasSuffix(n, "/vfork.RawVforkSyscall") {
+					hev := r.helperEvents(callee, c, b)
+					for _, he := range hev {
+						if execNrs[he.Nr] {
+							execBlocks = append(execBlocks, b)
+						}
+					}
+					events = append(events, hev...)
+				}
 				continue
 			}
-			ev := &e1Event{Call: c, Block: b}
+			ev := &e1Event{Call: c, Block: b, At: c}
 			if v, ok := constInt(c.Call.Args[0]); ok {
 				ev.Nr = v
 				ev.Name = r.sysnames[v]
@@ -258,15 +313,20 @@ func (r *e1Result) extract() {
 			continue // parent side (the clone itself)
 		}
 		ev.Guard = substTrue(g, childAtoms)
+		if ev.inner != nil {
+			ev.Guard = fAnd(ev.Guard, ev.inner)
+		}
 		for _, a := range Support(ev.Guard) {
 			if _, ok := r.Atoms[a]; !ok {
 				r.Atoms[a] = "data"
 			}
 		}
-		ev.InLoop = inLoop(ev.Block)
+		ev.InLoop = ev.InLoop || inLoop(ev.Block)
 		ord[ev.Name]++
 		ev.Site = fmt.Sprintf("%s#%d", ev.Name, ord[ev.Name])
-		r.failureEdge(ev)
+		if ev.Via == nil {
+			r.failureEdge(ev)
+		}
 		r.Events = append(r.Events, ev)
 		r.ByName[ev.Name] = append(r.ByName[ev.Name], ev)
 	}
@@ -801,4 +861,120 @@ func sortedAtoms(m map[string]string, kind string) []string {
 	}
 	sort.Strings(out)
 	return out
+}
+
+// helperEvents extracts the raw system calls of a helper function called by the
+// child at `site` (in block b of the child). Arguments that are parameters of
+// the helper are replaced by the values passed at the call; conditions inside
+// the helper become atoms prefixed with its name; failure edges are those of
+// the helper (calls of the no-return exit functions), with a location passed
+// through a parameter resolved at the call.
+func (r *e1Result) helperEvents(h *ssa.Function, site *ssa.Call, b *ssa.BasicBlock) []*e1Event {
+	subst := func(v ssa.Value) ssa.Value {
+		if pr, ok := stripConv(v).(*ssa.Parameter); ok && pr.Parent() == h {
+			for i, hp := range h.Params {
+				if hp == pr && i < len(site.Call.Args) {
+					return site.Call.Args[i]
+				}
+			}
+		}
+		return v
+	}
+	failBlk := map[*ssa.BasicBlock]*ssa.Call{}
+	var evs []*e1Event
+	for _, hb := range h.Blocks {
+		for _, in := range hb.Instrs {
+			c, ok := in.(*ssa.Call)
+			if !ok {
+				continue
+			}
+			n, callee := calleeOf(c)
+			if callee != nil && r.ExitFns[callee] {
+				if _, dup := failBlk[hb]; !dup {
+					failBlk[hb] = c
+				}
+				continue
+			}
+			if !isRawSyscallName(n) {
+				continue
+			}
+			ev := &e1Event{Call: c, Block: b, At: site, Via: h, Seq: len(evs)}
+			if v, ok := constInt(subst(c.Call.Args[0])); ok {
+				ev.Nr = v
+				ev.Name = r.sysnames[v]
+				if ev.Name == "" {
+					ev.Name = fmt.Sprintf("sys_%d", v)
+				}
+			} else {
+				ev.Nr = -1
+				ev.Name = "sys_?"
+				r.Problems = append(r.Problems, "syscall number is not a constant at "+r.p.Pos(c.Pos()))
+			}
+			for _, a := range c.Call.Args[1:] {
+				ev.Args = append(ev.Args, subst(a))
+			}
+			ev.InLoop = inLoop(hb)
+			evs = append(evs, ev)
+		}
+	}
+	if len(evs) == 0 {
+		return nil
+	}
+	cd := controlDepsFiltered(h, func(from, to *ssa.BasicBlock) bool {
+		_, isFail := failBlk[to]
+		return isFail
+	}, func(bb *ssa.BasicBlock) bool {
+		_, isFail := failBlk[bb]
+		return isFail
+	})
+	memo := map[*ssa.BasicBlock]*Form{}
+	var prefix func(f *Form) *Form
+	prefix = func(f *Form) *Form {
+		switch f.Op {
+		case 'L':
+			return fLit(h.Name() + ":" + f.Atom)
+		case '!':
+			return fNot(prefix(f.Kids[0]))
+		case '&':
+			var ks []*Form
+			for _, k := range f.Kids {
+				ks = append(ks, prefix(k))
+			}
+			return fAnd(ks...)
+		case '|':
+			var ks []*Form
+			for _, k := range f.Kids {
+				ks = append(ks, prefix(k))
+			}
+			return fOr(ks...)
+		}
+		return f
+	}
+	saved := r.failBlk
+	for _, ev := range evs {
+		ev.inner = prefix(cd.guardOfM(ev.Call.Block(), memo, map[*ssa.BasicBlock]bool{}))
+		// failure edge inside the helper
+		r.failBlk = failBlk
+		inner := &e1Event{Call: ev.Call, Block: ev.Call.Block()}
+		r.failureEdge(inner)
+		r.failBlk = saved
+		ev.Checked = inner.Checked
+		ev.FailLoc, ev.FailLocV, ev.FailIdx = inner.FailLoc, inner.FailLocV, inner.FailIdx
+		if strings.HasPrefix(ev.FailLoc, "?") {
+			// the location is a parameter of the helper: take the value passed at the call
+			for bb, fc := range failBlk {
+				_ = bb
+				if len(fc.Call.Args) >= 2 && "?"+describe(fc.Call.Args[1]) == ev.FailLoc {
+					if v, ok := constInt(subst(fc.Call.Args[1])); ok {
+						ev.FailLocV = v
+						ev.FailLoc = r.LocNames[v]
+						if ev.FailLoc == "" {
+							ev.FailLoc = fmt.Sprintf("ErrorLocation(%d)", v)
+						}
+					}
+				}
+			}
+		}
+	}
+	return evs
 }
